@@ -301,6 +301,15 @@ def main(tier):
                 recs.append({"id": cid, "prog": G.tla_ready(prog), "files": {fn: G.tla_ready(p) for fn, p in files.items()},
                              "class": cls, "v": vv, "infile": infile, "path": path, "pos": pos})
                 bases[cid] = (cls, kind, infile)
+    # every undefined-symbol variant once in front of everything, also of the segment definition (where `.align` used to skip
+    # its value: the thorough tier found the build succeeding)
+    prog, files, sites, top_limit = base_program(rnd)
+    G.number_statements(prog)
+    for vv in range(14):
+        cid += 1
+        recs.append({"id": cid, "prog": G.tla_ready(prog), "files": {fn: G.tla_ready(p) for fn, p in files.items()},
+                     "class": "undefsym", "v": vv, "infile": "main", "path": [], "pos": 0})
+        bases[cid] = ("undefsym", "top", "main")
     wd = V.workdir("C04")
     tr, out = os.path.join(wd, "inject.ndjson"), os.path.join(wd, "injected.ndjson")
     V.write_ndjson(tr, recs)
